@@ -199,6 +199,9 @@ func (r *Report) ApplyFindings(fs []Finding) (known []Obligation) {
 	return known
 }
 
+// Funcs returns the names of the functions the rules analysed.
+func (r *Report) Funcs() map[string]bool { return r.funcs }
+
 // Bad lists obligations that fail the check.
 func (r *Report) Bad() []Obligation {
 	var out []Obligation
